@@ -1556,7 +1556,7 @@ def ADC(
     
     dig_signal = np.round(
         (signal - V_min) / (V_max - V_min) * (2**n - 1)
-    ).astype(int)  # quantize signal between 0 and 2**n-1
+    ).clip(0, 2**n - 1).astype(int)  # quantize signal between 0 and 2**n-1 (out-of-range samples saturate)
     
     if otype == 'v':
         dig_signal = (
